@@ -185,11 +185,17 @@ def theory_arg(ctx, th):
 # -------------------------------------------------------------- calculations
 
 @op('calc')
-def calc(ctx, kind, det, sc, th='auto', optics=None, scaling=None):
+def calc(ctx, kind, det, sc, th='auto', optics=None, scaling=None,
+         _inline_sc=None, calcs=None):
     import holopy.scattering as hs
     detector = val(ctx, det) if det is not None else None
-    scat = val(ctx, sc)
-    theo = theory_arg(ctx, th)
+    scat = val(ctx, sc) if _inline_sc is None else \
+        _inline_scatterer(ctx, _inline_sc)
+    if isinstance(th, dict) and 'kind' in th:
+        theo = make_theory(ctx, th['kind'], th.get('options'),
+                           th.get('inner'))
+    else:
+        theo = theory_arg(ctx, th)
     kw = optics_kwargs(ctx, optics)
     kw.pop('noise_sd', None)
     if kind == 'holo':
